@@ -352,8 +352,9 @@ pub fn run(tier: Tier) -> i32 {
     let mut cases: Vec<Case> = Vec::new();
     // 1. arbitrary headers, interleaved links, counts around the batch, big payloads
     let mut streams: Vec<(String, Vec<u8>)> = Vec::new();
-    for (n, big) in [(1usize, false), (5, false), (12, true), (100, false), (101, false), (201, false)] {
-        if !tier.is_thorough() && n == 201 {
+    for (n, big) in [(1usize, false), (5, false), (12, true), (100, false), (101, false), (201, false), (1000, false), (70_000, false)] {
+        // 1000 packets: every counter beyond 255; 70 000 (thorough): counters beyond 65 535
+        if !tier.is_thorough() && (n == 201 || n == 70_000) {
             continue;
         }
         let pattern: Vec<u8> = (0..n).map(|i| ((i * 5 + i / 4) % 3) as u8).collect();
